@@ -553,6 +553,19 @@ def raw_region():
                                               for m in ast.walk(s))]
             if stmts:
                 return (min(s.lineno for s in stmts), max(s.end_lineno for s in stmts))
+            if not lines:
+                # the check-and-record was moved into a helper (method, static method, decorated function) of the
+                # module: the guard region is the constructor statement(s) calling a function that mentions the owner;
+                # helper_trace then steps through the helper (and its decorators' wrappers) line by line
+                helpers = {f.name for f in ast.walk(ast.parse(src)) if isinstance(f, (ast.FunctionDef,)) and
+                           f.name != '__init__' and any(isinstance(m, ast.Attribute) and m.attr == 'active_in_thread'
+                                                        for m in ast.walk(f))}
+                calls = [s for s in n.body if any(
+                    isinstance(m, ast.Call) and ((isinstance(m.func, ast.Attribute) and m.func.attr in helpers) or
+                                                 (isinstance(m.func, ast.Name) and m.func.id in helpers))
+                    for m in ast.walk(s))]
+                if calls:
+                    return (min(s.lineno for s in calls), max(s.end_lineno for s in calls))
             return None if not lines else (min(lines), max(lines))
     return None
 
